@@ -49,6 +49,8 @@ def run(ctx):
     rep.rule('R9.3', 'each group reaches the aggregator whole; one output row per group on every path')
     rep.rule('R9.5', 'groupselectmin/max: value sort (reverse for max) then groupselectfirst with its own key sort')
     rep.rule('R9.6', 'key-less simple aggregate yields exactly one data row unconditionally')
+    rep.rule('R9.11', 'key cells of the rows line up with the key fields of the header: same tests on the key specification, same width, no test on a group key value')
+    r911(ctx, rep)
     rep.assumptions = ['itertools.groupby groups maximal runs of equal keys', 'sort is stable (C05)']
     rep.trusted = ['C05', 'C11 R11.3']
     # R9.1 from C11
@@ -302,3 +304,164 @@ def _keyless(ctx, rep):
                          'the documented single row is missing' % (max(len(plain) - 1, 0), len(loops)), fn.node)
     if not checked:
         rep.undecided('R9.6', fn, 'key is None', 'no consistent valuation', fn.node)
+
+
+# ------------------------------------------------------------------------ R9.11
+KEY_SHAPE_FUNCS = {
+    'petl.transform.reductions:itersimpleaggregate': ('outhdr', None),
+    'petl.transform.reductions:itermultiaggregate': ('outhdr', 'outrow'),
+    'petl.transform.reductions:itermergeduplicates': ('outhdr', 'outrow'),
+}
+
+
+class _Unknown(Exception):
+    def __init__(self, atom):
+        self.atom = atom
+
+
+def _conj(t):
+    if isinstance(t, ast.BoolOp) and isinstance(t.op, ast.And):
+        return list(t.values)
+    return [t]
+
+
+def _contains_pick(stmts, pick, skip):
+    for s in stmts:
+        for n in ast.walk(s):
+            if pick is not None and isinstance(n, ast.Assign) and len(n.targets) == 1 and norm(n.targets[0]) == pick:
+                return True
+            if pick is None and isinstance(n, ast.Yield) and n.value is not None and id(n) not in skip:
+                return True
+    return False
+
+
+def _shapes(stmts, val, pick, skip, free):
+    """set of shape expressions (AST) the ladder reaches under the valuation; tests that are not in `val` and do
+    not look at the key are explored both ways (`free` collects them)"""
+    out = []
+    for s in stmts:
+        if isinstance(s, ast.If):
+            if not _contains_pick([s], pick, skip):
+                continue
+            truth = True
+            unknown = None
+            for a in _conj(s.test):
+                t = norm(a)
+                if t in val:
+                    if not val[t]:
+                        truth = False
+                        break
+                else:
+                    unknown = a
+                    break
+            if unknown is not None:
+                raise_names = {x.id for x in ast.walk(unknown) if isinstance(x, ast.Name)}
+                free.append((unknown, raise_names))
+                out += _shapes(s.body, val, pick, skip, free)
+                out += _shapes(s.orelse, val, pick, skip, free)
+                return out
+            res = _shapes(s.body if truth else s.orelse, val, pick, skip, free)
+            if res:
+                return out + res
+        elif isinstance(s, (ast.For, ast.While, ast.With)):
+            res = _shapes(s.body, val, pick, skip, free)
+            if res:
+                return out + res
+        elif isinstance(s, ast.Try):
+            res = _shapes(s.body, val, pick, skip, free)
+            if res:
+                return out + res
+        elif pick is not None and isinstance(s, ast.Assign) and len(s.targets) == 1 and norm(s.targets[0]) == pick:
+            return out + [s.value]
+        elif pick is None and isinstance(s, ast.Expr) and isinstance(s.value, ast.Yield) and s.value.value is not None \
+                and id(s.value) not in skip:
+            return out + [s.value.value]
+    return out
+
+
+def _key_width(e, keynames):
+    """'N' = as many cells as the key has fields; '1'; '0' -- how many leading key cells the expression contributes"""
+    if isinstance(e, ast.Call) and norm(e.func) in ('list', 'tuple') and e.args and norm(e.args[0]) in keynames:
+        return 'N'
+    if isinstance(e, ast.BinOp) and isinstance(e.op, ast.Add):
+        return _key_width(e.left, keynames)
+    if isinstance(e, (ast.List, ast.Tuple)):
+        n = sum(1 for x in e.elts if norm(x) in keynames or (isinstance(x, ast.Constant) and x.value == 'key'))
+        return str(min(n, 1)) if n <= 1 else '?'
+    if isinstance(e, ast.Name) and e.id in keynames:
+        return '?'
+    return '?'
+
+
+def r911(ctx, rep):
+    """The key cells of an output row line up with the key fields of the
+    header: both are chosen by the same tests on the key *specification*
+    (compound / callable / None / single field), never by a test on a group's
+    key value, and under every shape of the specification they have the same
+    width (N cells for a compound key, one cell, or none)."""
+    import itertools
+    n = 0
+    for fq, (hpick, rpick) in sorted(KEY_SHAPE_FUNCS.items()):
+        fn = ctx.project.need_fn(fq)
+        body = fn.node.body
+        # the group variable(s): first target of `for k, grp in rowgroupby(...)`
+        gvars = set()
+        for x in own_nodes(fn.node):
+            if isinstance(x, ast.For) and isinstance(x.target, ast.Tuple) and x.target.elts and \
+                    isinstance(x.target.elts[0], ast.Name) and 'rowgroupby' in norm(x.iter) or \
+                    (isinstance(x, ast.For) and isinstance(x.target, ast.Tuple) and isinstance(x.iter, ast.Name)
+                     and x.iter.id == 'grouped'):
+                gvars.add(x.target.elts[0].id)
+        if not gvars:
+            raise AnalysisError('anchor vanished: group loop of %s' % fq)
+        hdr_yield = set()
+        for x in own_nodes(fn.node):
+            if isinstance(x, ast.Yield) and x.value is not None and hpick in norm(x.value):
+                hdr_yield.add(id(x))
+        # atoms of the header ladder
+        atoms = []
+        for x in own_nodes(fn.node):
+            if isinstance(x, ast.If) and _contains_pick([x], hpick, set()):
+                for a in _conj(x.test):
+                    if norm(a) not in atoms:
+                        atoms.append(norm(a))
+        if not atoms:
+            raise AnalysisError('anchor vanished: header ladder of %s' % fq)
+        keynames = {'key'} | gvars
+        for combo in [()] + [(a,) for a in atoms]:
+            val = {a: (a in combo) for a in atoms}
+            label = combo[0] if combo else 'otherwise (single field)'
+            free_h, free_r = [], []
+            hs = _shapes(body, val, hpick, set(), free_h)
+            rs = _shapes(body, val, rpick, hdr_yield, free_r)
+            n += 1
+            bad_tests = [a for a, names in free_r if names & gvars]
+            spec_tests = [a for a, names in free_r if 'key' in names and not (names & gvars)]
+            construct = 'key cells when %s' % label
+            if bad_tests:
+                rep.violated('R9.11', fn, construct,
+                             'the shape of the output row is chosen by `%s`, a test on the key *value* of the group, while the '
+                             'header is chosen by the key specification: a single key whose values happen to be tuples (or a '
+                             'compound key whose values are not) gets rows that do not line up with the header'
+                             % norm(bad_tests[0]), bad_tests[0])
+                continue
+            if spec_tests:
+                rep.violated('R9.11', fn, construct,
+                             'the output row is shaped by `%s`, a test on the key specification that the header ladder does '
+                             'not make' % norm(spec_tests[0]), spec_tests[0])
+                continue
+            hw = {_key_width(e, keynames) for e in hs}
+            rw = {_key_width(e, keynames) for e in rs}
+            if not hs or not rs:
+                rep.undecided('R9.11', fn, construct, 'no header / row shape found', fn.node)
+            elif '?' in hw | rw:
+                rep.undecided('R9.11', fn, construct, 'shape not recognised: header %s, row %s'
+                              % ([norm(e) for e in hs], [norm(e) for e in rs]), fn.node)
+            elif len(hw) == 1 and hw == rw:
+                rep.held('R9.11', fn, construct, 'header %s / row %s: %s key cell(s)' % (
+                    norm(hs[0])[:30], norm(rs[0])[:30], sorted(hw)[0]), fn.node)
+            else:
+                rep.violated('R9.11', fn, construct,
+                             'the header has %s key field(s) (%s) but the row gets %s key cell(s) (%s)'
+                             % ('/'.join(sorted(hw)), norm(hs[0]), '/'.join(sorted(rw)), norm(rs[0])), rs[0])
+    ctx.floor('key_shape_valuations', n, 9)
